@@ -1,0 +1,48 @@
+//go:build verif
+
+package car
+
+// Contracts for the verification machinery in /verif (comment-only; see /verif/DESIGN.md).
+
+//@ func NewHeader
+//@   ensures layout [C05]: result.DataOffset == 51 && result.DataSize == dataSize && result.IndexOffset == wrap_u64(51 + dataSize)
+//@   ensures chars [C05]: result.Characteristics.Hi == 0 && result.Characteristics.Lo == 0
+
+//@ func (Header).WithIndexPadding
+//@   ensures layout [C05]: result.IndexOffset == wrap_u64(h.IndexOffset + padding) && result.DataOffset == h.DataOffset && result.DataSize == h.DataSize
+//@   ensures chars [C05]: result.Characteristics.Hi == h.Characteristics.Hi && result.Characteristics.Lo == h.Characteristics.Lo
+
+//@ func (Header).WithDataPadding
+//@   ensures layout [C05]: result.DataOffset == wrap_u64(51 + padding) && result.IndexOffset == wrap_u64(h.IndexOffset + padding) && result.DataSize == h.DataSize
+//@   ensures chars [C05]: result.Characteristics.Hi == h.Characteristics.Hi && result.Characteristics.Lo == h.Characteristics.Lo
+
+//@ func (Header).WithDataSize
+//@   ensures layout [C05]: result.DataSize == size && result.IndexOffset == wrap_u64(size + h.IndexOffset) && result.DataOffset == h.DataOffset
+//@   ensures chars [C05]: result.Characteristics.Hi == h.Characteristics.Hi && result.Characteristics.Lo == h.Characteristics.Lo
+
+//@ func (Header).HasIndex
+//@   ensures def [C05,C07]: result == (h.IndexOffset != 0)
+
+//@ func (*BlockReader).Next
+//@   requires inv: br.offset == pos(br.r)
+//@   modifies pos(br.r), br.offset
+//@   let c, data, rerr := call[util.ReadNode#0]
+//@   ensures advance [C14]: err == nil ==> br.offset == old(br.offset) + vsize(bytelen(c) + len(data)) + bytelen(c) + len(data)
+//@   ensures inv_kept [C14]: err == nil ==> br.offset == pos(br.r)
+//@   ensures integrity [C02]: err == nil && !br.opts.TrustedCAR ==> hashok(blockcid(result0), blockdata(result0))
+//@   ensures same_values [C02]: err == nil ==> blockcid(result0) == ref(c) && blockdata(result0) == ref(data)
+//@   ensures eof_clean [C02]: err == io.EOF ==> pos(br.r) == old(pos(br.r)) || (br.opts.ZeroLengthSectionAsEOF && pos(br.r) == old(pos(br.r)) + 1)
+
+//@ func (*BlockReader).SkipNext
+//@   requires inv: br.offset == pos(br.r)
+//@   requires origin: sbase(br.r) == 0
+//@   modifies pos(br.r), br.offset, br.readerSize
+//@   let sectionSize, e0 := call[util.LdReadSize#0]
+//@   let cidSize, c, e1 := call[cid.CidFromReader#0]
+//@   ensures md_source [C14]: err == nil ==> result0.SourceOffset == old(br.offset)
+//@   ensures md_offset [C14]: err == nil ==> result0.Offset == wrap_u64(old(br.offset) - br.v1offset)
+//@   ensures md_size [C14]: err == nil ==> result0.Size == sectionSize - cidSize
+//@   ensures md_cid [C14]: err == nil ==> result0.Cid == c
+//@   ensures advance [C14]: err == nil ==> br.offset == old(br.offset) + vsize(sectionSize) + sectionSize
+//@   ensures inv_kept [C14]: err == nil ==> br.offset == pos(br.r)
+//@   ensures eof_clean [C02]: err == io.EOF ==> pos(br.r) == old(pos(br.r)) || (br.opts.ZeroLengthSectionAsEOF && e0 == io.EOF && pos(br.r) == old(pos(br.r)) + 1)
